@@ -126,6 +126,15 @@ func ceditGenOpKind(r *rand.Rand, kind string) ceditOp {
 		op.S = [4]string{p}
 	case "SetRequire", "SetRequireSeparateIndirect":
 		op.Reqs = ceditReqList(r, 4)
+		if len(op.Reqs) > 0 && r.IntN(6) == 0 {
+			// "must specify at most one distinct version for each module path": naming a path twice with
+			// the same version is allowed, and asks for one requirement
+			k := r.IntN(len(op.Reqs))
+			op.Reqs = append(op.Reqs, op.Reqs[k])
+			if r.IntN(2) == 0 {
+				op.Reqs[0], op.Reqs[len(op.Reqs)-1] = op.Reqs[len(op.Reqs)-1], op.Reqs[0]
+			}
+		}
 	case "AddReplace":
 		ov := v
 		if r.IntN(2) == 0 {
